@@ -1,2 +1,91 @@
--- stub: replaced by the model driver of this property
-def main : IO Unit := pure ()
+import SdcModel.Basic.Io
+import SdcModel.Invocation
+open Sdc Sdc.Invocation
+
+/-! model driver for C09.
+  provider:  `preset cap` | `recv <sco|-> <d|q> <State|raise>` -> `ok tx` | `handle k` | `tick s` -> messages
+             `pstate n` -> counter, mdib, in-flight ids, queue ids of SCO 0..n-1
+  consumer:  `creset maxlen` | `response fut tx State` | `part uid tx State` | `drop fut` -> completions of this step
+             `cstate` -> buffered uids
+  id lock:   `lts c0 <L|U> nthreads i1 i2 …` -> issued (thread:id) list and the result of every thread -/
+
+structure DState where
+  p : Prov
+  c : Cons
+
+def showInfo (i : Info) : String := s!"{i.tx} {i.st.name} {if i.err then 1 else 0}"
+
+def showMsg : Msg → String
+  | .resp i => "resp " ++ showInfo i
+  | .report i => "report " ++ showInfo i
+
+def showMsgs (l : List Msg) : String := if l.isEmpty then "-" else ";".intercalate (l.map showMsg)
+
+def showResult (r : Result) : String :=
+  s!"done {r.fut} {r.st.name} {if r.fromReport then 1 else 0} [{Io.natList (r.parts.map (·.uid))}]"
+
+def parseOutcome (s : String) : Option Outcome :=
+  if s == "raise" then some .raises else (St.ofName? s).map .ok
+
+def cstepShow (d : DState) (e : CEv) : DState × String :=
+  let c' := cstep d.c e
+  let new := c'.done.drop d.c.done.length
+  ({ d with c := c' }, if new.isEmpty then "-" else ";".intercalate (new.map showResult))
+
+def ltsRun (c0 : Nat) (prog : List Lts.Act) (n : Nat) (sched : List Nat) : String :=
+  let c := Lts.runSched prog (Lts.Cfg.init c0) sched
+  let issued := " ".intercalate (c.issued.map (fun e => s!"{e.1}:{e.2}"))
+  let res := " ".intercalate ((List.range n).map (fun i => match (c.thr i).res with | some a => toString a | none => "-"))
+  s!"issued [{issued}] res [{res}] counter {c.counter}"
+
+def stepLine (d : DState) (line : String) : DState × String :=
+  match Io.words line with
+  | ["preset", cap] => match cap.toNat? with
+    | some k => ({ d with p := Prov.init k }, "ok")
+    | none => (d, "bad-op")
+  | ["recv", sco, mode, out] =>
+    let sco? : Option (Option Nat) := if sco == "-" then some none else sco.toNat?.map some
+    let mode? : Option Bool := if mode == "d" then some true else if mode == "q" then some false else none
+    match sco?, mode?, parseOutcome out with
+    | some s, some m, some o =>
+      let r := step d.p (.recv ⟨s, m, o⟩)
+      ({ d with p := r.1 }, s!"ok {r.1.counter}")
+    | _, _, _ => (d, "bad-op")
+  | ["handle", k] => match k.toNat? with
+    | some k =>
+      if k < d.p.inflight.length then
+        let r := step d.p (.handle k)
+        ({ d with p := r.1 }, showMsgs r.2)
+      else (d, "none")
+    | none => (d, "bad-op")
+  | ["tick", s] => match s.toNat? with
+    | some s =>
+      let r := step d.p (.tick s)
+      ({ d with p := r.1 }, if r.2.isEmpty then "idle" else showMsgs r.2)
+    | none => (d, "bad-op")
+  | ["pstate", n] => match n.toNat? with
+    | some n =>
+      let qs := (List.range n).map (fun s => "[" ++ Io.natList ((d.p.queues s).map (·.1)) ++ "]")
+      (d, s!"counter={d.p.counter} mdib={d.p.mdib} inflight=[{Io.natList (d.p.inflight.map (·.1))}] queues={" ".intercalate qs}")
+    | none => (d, "bad-op")
+  | ["creset", m] => match m.toNat? with
+    | some k => ({ d with c := Cons.init k }, "ok")
+    | none => (d, "bad-op")
+  | ["response", fut, tx, st] => match fut.toNat?, tx.toNat?, St.ofName? st with
+    | some f, some t, some s => cstepShow d (.response f t s)
+    | _, _, _ => (d, "bad-op")
+  | ["part", uid, tx, st] => match uid.toNat?, tx.toNat?, St.ofName? st with
+    | some u, some t, some s => cstepShow d (.part ⟨u, t, s⟩)
+    | _, _, _ => (d, "bad-op")
+  | ["drop", fut] => match fut.toNat? with
+    | some f => cstepShow d (.drop f)
+    | none => (d, "bad-op")
+  | ["cstate"] => (d, s!"recent=[{Io.natList (d.c.recent.map (·.uid))}] done={d.c.done.length}")
+  | "lts" :: c0 :: prog :: n :: sched =>
+    let prog? := if prog == "L" then some Lts.lockedProg else if prog == "U" then some Lts.unlockedProg else none
+    match c0.toNat?, prog?, n.toNat?, Io.parseNats sched with
+    | some c0, some pr, some n, some sc => (d, ltsRun c0 pr n sc)
+    | _, _, _, _ => (d, "bad-op")
+  | _ => (d, "bad-op")
+
+def main : IO Unit := Io.lineLoop stepLine ⟨Prov.init 10, Cons.init 50⟩
